@@ -52,7 +52,7 @@ def run(chk):
     rng = chk.rng
     progs = [(o["source"], o.get("draws", [])) for _fn, o in load_corpus("C05") if "source" in o]
     feats = {}
-    for _ in range(3000 if chk.thorough else 400):
+    for _ in range(12000 if chk.thorough else 400):
         g = proggen.Gen(rng, quantum=True, tracked=rng.random() < 0.3, max_qubits=6 if chk.thorough else 5,
                         qprob=rng.choice([0.5, 0.8, 0.9]), main_len=(8, 24))
         progs.append((g.program(), evallib.gen_draws(rng, 16)))
